@@ -379,3 +379,174 @@ Theorem C06_kernel_upstream_one_cell :
            VArrI (pad9 (upstream_hits_with codes nrows ncols fd c))]).
 Proof. exact @RefineArea.refine_c_upstream_one. Qed.
 Print Assumptions C06_kernel_upstream_one_cell.
+
+(* ================================================================== *)
+(* C06 ITSELF on the REGENERATED program (MiniC translation of src/hydrodiy/gis/c_catchment.c): the model theorems above composed with the refinement theorems *)
+(*    (Proofs/KernelCatchment.v): delineated area = upstream reachability, flow-path length = length of the downstream chain, river trace = downstream chain. *)
+(* ================================================================== *)
+From Coq Require Import String Lia PrimFloat.
+From Hy Require Import Base.Num Base.MiniC Gen.KernelsAst Gen.Consts Base.Num Base.MiniC Gen.KernelsAst Gen.Consts Model.Grid Model.Catchment.
+From Hy Require Proofs.KernelCatchment.
+Import ListNotations.
+Open Scope string_scope.
+Open Scope list_scope.
+Open Scope Z_scope.
+
+(* when the translated c_delineate_area returns 0, idxcells_area holds (before its untouched tail) exactly the outlet plus every cell whose downstream chain reaches the outlet without passing through an inlet, all valid cells, each once when the outlet does not drain back into itself; any grid (cycles included), any arithmetic instance *)
+Theorem C06_kernel_area_is_reachability :
+  forall (T : Type) (N : NumOps T) (X : NumLit T) (nrows ncols : Z) 
+         (fd : list Z) (outlet : Z) (inlets area0 b10 b20 : list Z) (n : nat)
+         (outs : list (arrval T)),
+       0 < ncols ->
+       0 <= outlet < nrows * ncols ->
+       Z.of_nat (Datatypes.length fd) = nrows * ncols ->
+       Datatypes.length b10 = Datatypes.length area0 ->
+       Datatypes.length b20 = Datatypes.length area0 ->
+       (Datatypes.length inlets < n)%nat ->
+       (Datatypes.length area0 < n)%nat ->
+       (13 < n)%nat ->
+       RefineArea.da_call N X n nrows ncols fd outlet inlets area0 b10 b20 = Ok (RI 0, outs) ->
+       exists res b1 b2 : list Z,
+         outs =
+         [VArrI FLOWDIRCODE; VArrI fd; VArrI inlets;
+          VArrI (res ++ skipn (Datatypes.length res) area0); VArrI b1; 
+          VArrI b2] /\
+         (forall x : Z,
+          In x res <->
+          (exists k : nat, (1 <= k)%nat /\ AreaProofs.reach nrows ncols fd inlets outlet k x) \/
+          x = outlet /\ (exists y : Z, AreaProofs.reach nrows ncols fd inlets outlet 1 y)) /\
+         (forall x : Z, In x res -> 0 <= x < nrows * ncols) /\
+         ((forall m : nat, (1 <= m)%nat -> ~ AreaProofs.reach nrows ncols fd inlets outlet m outlet) ->
+          NoDup res).
+Proof. exact @KernelCatchment.kernel_area_is_reachability. Qed.
+Print Assumptions C06_kernel_area_is_reachability.
+
+(* the same with the call convention of grid.py (the three arrays initialised with -1, the area read back as the non-negative entries): those entries are exactly the reachability set, each cell once *)
+Theorem C06_kernel_area_python_convention :
+  forall (T : Type) (N : NumOps T) (X : NumLit T) (nrows ncols : Z) 
+         (fd : list Z) (outlet : Z) (inlets : list Z) (nval n : nat) (a b1 b2 : list Z),
+       0 < ncols ->
+       0 <= outlet < nrows * ncols ->
+       Z.of_nat (Datatypes.length fd) = nrows * ncols ->
+       (Datatypes.length inlets < n)%nat ->
+       (nval < n)%nat ->
+       (13 < n)%nat ->
+       RefineArea.da_call N X n nrows ncols fd outlet inlets (repeat (-1) nval) 
+         (repeat (-1) nval) (repeat (-1) nval) =
+       Ok (RI 0, [VArrI FLOWDIRCODE; VArrI fd; VArrI inlets; VArrI a; VArrI b1; VArrI b2]) ->
+       let cells := filter (fun x : Z => 0 <=? x) a in
+       (forall x : Z,
+        In x cells <->
+        (exists k : nat, (1 <= k)%nat /\ AreaProofs.reach nrows ncols fd inlets outlet k x) \/
+        x = outlet /\ (exists y : Z, AreaProofs.reach nrows ncols fd inlets outlet 1 y)) /\
+       ((forall m : nat, (1 <= m)%nat -> ~ AreaProofs.reach nrows ncols fd inlets outlet m outlet) ->
+        NoDup cells).
+Proof. exact @KernelCatchment.kernel_area_python_convention. Qed.
+Print Assumptions C06_kernel_area_python_convention.
+
+(* nval < 1, invalid outlet or invalid inlet: the translated kernel returns a positive code and writes nothing *)
+Theorem C06_kernel_area_rejects :
+  forall (T : Type) (N : NumOps T) (X : NumLit T) (nrows ncols : Z) 
+         (fd : list Z) (outlet : Z) (inlets area0 b10 b20 : list Z) (n : nat),
+       0 <= ncols ->
+       Z.of_nat (Datatypes.length fd) = nrows * ncols ->
+       Datatypes.length b10 = Datatypes.length area0 ->
+       Datatypes.length b20 = Datatypes.length area0 ->
+       (Datatypes.length inlets < n)%nat ->
+       (Datatypes.length area0 < n)%nat ->
+       (13 < n)%nat ->
+       Z.of_nat (Datatypes.length area0) < 1 \/
+       outlet < 0 \/
+       nrows * ncols <= outlet \/ (exists i : Z, In i inlets /\ (i < 0 \/ nrows * ncols <= i)) ->
+       exists code : Z,
+         0 < code /\
+         RefineArea.da_call N X n nrows ncols fd outlet inlets area0 b10 b20 =
+         Ok
+           (RI code, [VArrI FLOWDIRCODE; VArrI fd; VArrI inlets; VArrI area0; VArrI b10; VArrI b20]).
+Proof. exact @KernelCatchment.kernel_area_rejects. Qed.
+Print Assumptions C06_kernel_area_rejects.
+
+(* the translated c_delineate_flowpathlengths_in_catchment, over the reals: row i holds the cell, the outlet and the length of the cell's downstream chain to the outlet (path_len: 1 per orthogonal step, sqrt 2 per diagonal step, C06_steplen_cases); length 0 for the outlet itself *)
+Theorem C06_kernel_flowpath_is_chain_length :
+  forall (nrows ncols : Z) (fd area : list Z) (outlet : Z) (buf : list R) (n : nat),
+       nrows * ncols <= Z.of_nat (Datatypes.length fd) ->
+       0 <= outlet ->
+       Datatypes.length buf = (3 * Datatypes.length area)%nat ->
+       (Nat.max (Datatypes.length area) 12 < n)%nat ->
+       exists out : list R,
+         KernelCatchment.run_flowpaths n nrows ncols fd area outlet buf =
+         Ok (RI 0, [VArrI FLOWDIRCODE; VArrI fd; VArrI area; VArrF out]) /\
+         Datatypes.length out = (3 * Datatypes.length area)%nat /\
+         (forall (i : nat) (x : Z) (mids : list Z),
+          (i < Datatypes.length area)%nat ->
+          nth i area 0 = x ->
+          x <> outlet ->
+          PathProofs.chain nrows ncols fd (x :: mids ++ [outlet]) ->
+          Forall (fun c : Z => c <> outlet) mids ->
+          Z.of_nat (Datatypes.length mids) + 1 < Z.of_nat (Datatypes.length area) ->
+          nth (3 * i) out 0%R = IZR x /\
+          nth (3 * i + 1) out 0%R = IZR outlet /\
+          nth (3 * i + 2) out 0%R = PathProofs.path_len ncols (x :: mids ++ [outlet])) /\
+         (forall i : nat,
+          (i < Datatypes.length area)%nat ->
+          nth i area 0 = outlet ->
+          nth (3 * i) out 0%R = IZR outlet /\ nth (3 * i + 2) out 0%R = 0%R).
+Proof. exact @KernelCatchment.kernel_flowpath_is_chain_length. Qed.
+Print Assumptions C06_kernel_flowpath_is_chain_length.
+
+(* the translated c_delineate_river, over the reals, from any valid start cell: the cells written are the downstream chain of the start cell (distance 0 at the start), at most as many as the buffer holds, stopping early only where the chain leaves the grid or reaches a sink; dx, dy, distance advance as river_dists_ok says; the rest of the buffers untouched *)
+Theorem C06_kernel_river_follows_downstream_chain :
+  forall (nrows ncols : Z) (xll yll csz : R) (fd : list Z) (start np0 : Z) 
+         (cbuf : list Z) (dbuf : list R) (n : nat),
+       0 < ncols ->
+       0 <= start < nrows * ncols ->
+       nrows * ncols <= Z.of_nat (Datatypes.length fd) ->
+       (1 <= Datatypes.length cbuf)%nat ->
+       Datatypes.length dbuf = (5 * Datatypes.length cbuf)%nat ->
+       (Nat.max (Datatypes.length cbuf) 12 < n)%nat ->
+       exists rows : list (Z * R * R * R * R * R),
+         KernelCatchment.run_river n nrows ncols xll yll csz fd start np0 cbuf dbuf =
+         Ok
+           (RI 0,
+            [VArrI FLOWDIRCODE; VArrI fd; VArrI [Z.of_nat (Datatypes.length rows)];
+             VArrI (map PathProofs.rcell rows ++ skipn (Datatypes.length rows) cbuf);
+             VArrF (flat_map RefineRiver.rv_data rows ++ skipn (5 * Datatypes.length rows) dbuf)]) /\
+         (1 <= Datatypes.length rows <= Datatypes.length cbuf)%nat /\
+         PathProofs.chain nrows ncols fd (map PathProofs.rcell rows) /\
+         (exists (row : Z * R * R * R * R * R) (rest : list (Z * R * R * R * R * R)),
+            rows = row :: rest /\ PathProofs.rcell row = start /\ PathProofs.rdist row = 0%R) /\
+         ((Datatypes.length rows < Datatypes.length cbuf)%nat ->
+          forall d : Z,
+          downstream nrows ncols fd (last (map PathProofs.rcell rows) start) = Some d -> d < 0) /\
+         PathProofs.river_dists_ok ncols rows.
+Proof. exact @KernelCatchment.kernel_river_follows_downstream_chain. Qed.
+Print Assumptions C06_kernel_river_follows_downstream_chain.
+
+(* the abbreviations da_call, run_flowpaths, run_river, rcell, rdist, rv_data used above, unfolded *)
+Theorem C06_kernel_catchment_abbreviations :
+  (forall (T : Type) (N : NumOps T) (X : NumLit T) (n : nat) (nrows ncols : Z) 
+          (fd : list Z) (outlet : Z) (inlets area0 b10 b20 : list Z),
+        RefineArea.da_call N X n nrows ncols fd outlet inlets area0 b10 b20 =
+        exec_fun N X program (S n) "c_delineate_area"
+          [AVI nrows; AVI ncols; AVArrI FLOWDIRCODE; AVArrI fd; AVI outlet;
+           AVI (Z.of_nat (Datatypes.length inlets)); AVArrI inlets;
+           AVI (Z.of_nat (Datatypes.length area0)); AVArrI area0; AVArrI b10; 
+           AVArrI b20]) /\
+       (forall (n : nat) (nrows ncols : Z) (fd area : list Z) (outlet : Z) (buf : list R),
+        KernelCatchment.run_flowpaths n nrows ncols fd area outlet buf =
+        exec_fun RR XRR program (S n) "c_delineate_flowpathlengths_in_catchment"
+          [AVI nrows; AVI ncols; AVArrI FLOWDIRCODE; AVArrI fd; AVI (MiniC.zlen area); 
+           AVArrI area; AVI outlet; AVArrF buf]) /\
+       (forall (n : nat) (nrows ncols : Z) (xll yll csz : R) (fd : list Z) 
+          (start np0 : Z) (cbuf : list Z) (dbuf : list R),
+        KernelCatchment.run_river n nrows ncols xll yll csz fd start np0 cbuf dbuf =
+        exec_fun RR XRR program (S n) "c_delineate_river"
+          [AVI nrows; AVI ncols; AVF xll; AVF yll; AVF csz; AVArrI FLOWDIRCODE; 
+           AVArrI fd; AVI start; AVI (MiniC.zlen cbuf); AVArrI [np0]; AVArrI cbuf; 
+           AVArrF dbuf]) /\
+       (forall (c : Z) (dist dx dy x y : R),
+        PathProofs.rcell (c, dist, dx, dy, x, y) = c /\
+        PathProofs.rdist (c, dist, dx, dy, x, y) = dist /\
+        RefineRiver.rv_data (c, dist, dx, dy, x, y) = [dist; dx; dy; x; y]).
+Proof. exact @KernelCatchment.kernel_catchment_defs. Qed.
+Print Assumptions C06_kernel_catchment_abbreviations.
